@@ -185,7 +185,9 @@ Section Bind.
   }.
   Record validators := mkValidators {
     vs_height : Z;
-    vs_set : option (list validator * bytes);   (* None: malformed; snd = Proposer, TotalVotingPower: NOT covered *)
+    vs_set : option (list validator * bytes);   (* None: malformed; the entries of the RETURNED bytes, in the order they
+                                                   have there (no sorting, no normalisation: the caller receives exactly
+                                                   these bytes); snd = Proposer, TotalVotingPower: NOT covered *)
   }.
   (* core.go:709-724 *)
   Definition verify_next_validators (vs : validators) (lb : light_block) : bverdict :=
